@@ -1,19 +1,18 @@
 CONSTANTS
   Ids = {1, 2, 3}
   RRTable <- MC_RR
-  PtrIds = {3}
+  PtrIds = {1, 2}
   TTLs = {0, 1, 120}
   Steps = {1000, 1001, 10000}
   MaxEvents = 3
-  MaxTicks = 3
+  MaxTicks = 4
   MaxItems = 2
   PurgeNotifies = TRUE
-  Fixed = FALSE
+  Fixed = TRUE
 SPECIFICATION Spec
 INVARIANT Refines
 INVARIANT NoEarlyPurge
 INVARIANT LiveMatches
 INVARIANT Alternates
-VIEW view
 CONSTRAINT Bound
 CHECK_DEADLOCK FALSE
